@@ -328,3 +328,35 @@ func HarnessC02LeftBeforeStart() {
 	vCheck("LBS.start.after.left", started)
 	vReach("end")
 }
+
+// ---- C02/T5 for long high-rate runs: a list of three once parts (also nested) whose token counts
+// are symbolic up to 2^33 each - totals that do not fit 32 bits. Left() is the exact total before and
+// after the start, drops by exactly one per token, and the part boundaries are crossed with a part of
+// 0..2 tokens in front so that the suffix sums of every position are read.
+func HarnessC02LeftLargeTotals() {
+	a := vNondetInt("a", 0, 2)
+	b := vNondetInt("b", 0, 1<<33)
+	c := vNondetInt("c", 0, 1<<33)
+	var s core.Schedule
+	if vNondetBool("nested") {
+		s = NewComposite(NewOnce(a), NewComposite(NewOnce(b), NewOnce(c)))
+	} else {
+		s = NewComposite(NewOnce(a), NewOnce(b), NewOnce(c))
+	}
+	total := a + b + c
+	vCheck("T5.large.left.before.start", int64(s.Left()) == total)
+	t0 := vNondetTime("t0")
+	s.Start(t0)
+	vCheck("T5.large.left.after.start", int64(s.Left()) == total)
+	for i := int64(1); i <= 4; i++ {
+		_, ok := s.Next()
+		if i <= total {
+			vCheck("T5.large.token", ok)
+			vCheck("T5.large.left.drops.by.one", int64(s.Left()) == total-i)
+		} else {
+			vCheck("T5.large.no.token", !ok)
+			vCheck("T5.large.left.zero", s.Left() == 0)
+		}
+	}
+	vReach("end")
+}
